@@ -80,6 +80,10 @@ pub struct SimDisk {
     pub stats: Arc<DiskStats>,
     /// optional hard quota in bytes over all live files
     pub quota: Option<u64>,
+    /// write buffering of the backend (a legal `SpillWriter` may buffer like a `BufWriter`): bytes
+    /// become visible to readers only at `flush` / `finish`, or when the buffer (of this many bytes)
+    /// overflows; what is still buffered when a writer is dropped without flush is lost. 0 = unbuffered
+    pub write_buffer: AtomicU64,
 }
 
 impl SimDisk {
@@ -90,7 +94,11 @@ impl SimDisk {
             pending_every,
             stats: Arc::new(DiskStats::default()),
             quota: None,
+            write_buffer: AtomicU64::new(0),
         })
+    }
+    pub fn set_write_buffer(&self, bytes: u64) {
+        self.write_buffer.store(bytes, Ordering::Relaxed);
     }
     pub fn with_quota(faults: Vec<Fault>, read_chunk: usize, pending_every: u64, quota: u64) -> Arc<Self> {
         Arc::new(SimDisk {
@@ -99,6 +107,7 @@ impl SimDisk {
             pending_every,
             stats: Arc::new(DiskStats::default()),
             quota: Some(quota),
+            write_buffer: AtomicU64::new(0),
         })
     }
     /// Counts the operation and says whether it must fail (and whether torn).
@@ -175,13 +184,24 @@ impl SpillFile for SimFile {
         }))
     }
     fn open_writer(&self) -> Result<Box<dyn SpillWriter>> {
-        Ok(Box::new(SimWriter { disk: Arc::clone(&self.disk), data: Arc::clone(&self.data) }))
+        Ok(Box::new(SimWriter { disk: Arc::clone(&self.disk), data: Arc::clone(&self.data), buffered: Vec::new() }))
     }
 }
 
 struct SimWriter {
     disk: Arc<SimDisk>,
     data: Arc<Mutex<Vec<u8>>>,
+    /// written but not yet visible to readers (only used when the disk buffers writes)
+    buffered: Vec<u8>,
+}
+
+impl SimWriter {
+    fn publish(&mut self) {
+        if !self.buffered.is_empty() {
+            let b = std::mem::take(&mut self.buffered);
+            self.data.lock().extend_from_slice(&b);
+        }
+    }
 }
 
 impl std::io::Write for SimWriter {
@@ -203,7 +223,20 @@ impl std::io::Write for SimWriter {
                 return Err(std::io::Error::other("simdisk: quota exceeded (ENOSPC)"));
             }
         }
-        self.data.lock().extend_from_slice(buf);
+        let cap = self.disk.write_buffer.load(Ordering::Relaxed) as usize;
+        if cap == 0 {
+            self.data.lock().extend_from_slice(buf);
+        } else {
+            // like std's BufWriter: what does not fit flushes the buffer first; large writes go through
+            if self.buffered.len() + buf.len() > cap {
+                self.publish();
+            }
+            if buf.len() >= cap {
+                self.data.lock().extend_from_slice(buf);
+            } else {
+                self.buffered.extend_from_slice(buf);
+            }
+        }
         self.disk.stats.live_bytes.fetch_add(buf.len() as i64, Ordering::Relaxed);
         self.disk.stats.bytes_written.fetch_add(buf.len() as u64, Ordering::Relaxed);
         Ok(buf.len())
@@ -212,6 +245,7 @@ impl std::io::Write for SimWriter {
         if self.disk.check(FaultKind::Flush).is_some() {
             return Err(std::io::Error::other("simdisk: injected flush failure"));
         }
+        self.publish();
         Ok(())
     }
 }
@@ -221,6 +255,7 @@ impl SpillWriter for SimWriter {
         if self.disk.check(FaultKind::Finish).is_some() {
             return Err(injected("finish"));
         }
+        self.publish();
         Ok(())
     }
 }
